@@ -90,6 +90,14 @@ CHECKS = {
          "(hand-written UISA table) are checked by execution on all structured decodable words; 30 classes whose text round trip fails are known findings."),
    note=TB + "No executable PowerPC reference is available offline: the opcode table in p_c18.py is hand-written. The per-class string code (str/asm) has no Gallina model.",
    design='4/C18'),
+ 'C12': dict(
+   technique='call histories on shared objects in one process; every answer compared with its pure answer (Gallina models Simp.v/EvalAbs.v, which are functions by construction; a fresh process for dis/lift/asm); input re-serialisation, table digests, parser-table cache modes',
+   text=("The models of expr_simp / eval_expr / eval_instr are Gallina functions of their explicit arguments (trivially history-independent: props/C12.v); the property is about the implementation, so the check "
+         "replays histories of 4..50 API calls on shared expression objects and machines (400 quick / 6000 thorough) and compares each answer with the model (or a fresh process for dis/lift/asm/asm_att), "
+         "re-serialises the inputs after each call, digests the shared x86 tables before/after, and runs assembler probes under empty / warm / stale (tables written by a modified grammar revision) cache "
+         "directories. Failing histories are shrunk by greedy removal. One known finding: the is_eval flag set on shared objects."),
+   note=TB + "Process-global state, object identity and on-disk caches are runtime facts that no Gallina model exhibits: this property is decided by execution against the pure models (category other, not proof).",
+   design='4/C12', category='other'),
 }
 PENDING = {p: 'check under construction in this round (see DESIGN.md section 6 staging); not claimed yet' for p in ALL}
 def main():
